@@ -298,6 +298,22 @@ def rand_chunk(rng, toktable):
     return "".join(out), "any"
 
 
+def long_number_strings():
+    """every numeric template with ONE argument a numeral beyond the interpreter's int() digit limit (sys.get_int_max_str_digits, 4300)
+    and the others small and valid: a component no regular expression of digits rules out"""
+    out = []
+    for ti, tpl in enumerate(TEMPLATES):
+        k = tpl.count("%s")
+        if k == 0 or not any(x in tpl for x in ("rgb", "color", "#", "\x1b[", "RGB")):
+            continue
+        for body, cls in (("9" * 4400, "nines"), ("0" * 4400 + "7", "zeros"), ("1" * 4301, "ones")):
+            for pos in range(k):
+                args = ["1"] * k
+                args[pos] = body
+                out.append((tpl % tuple(args), "longnum/%s/%d@%d" % (cls, ti, pos)))
+    return out
+
+
 def rand_string(rng, toktable):
     """-> (string, shape): shape (template + classes of the chunks) is what signatures may mention, never the data"""
     r = rng.random()
@@ -692,6 +708,7 @@ def run(chk: Check):
 def random_part(chk, R, tables, toktable):
     nstr = chk.pick(2500, 40000)
     strings = [rand_string(chk.rng, toktable) for _ in range(nstr)]
+    strings += long_number_strings()
     # every string goes to every entry point twice: the plain call, and one of the other public routes to the same parser / printer
     # (R.variants: other constructors, print options, console configurations, a long-lived decoder, ...)
     pairs, shapes = [], []
